@@ -30,6 +30,7 @@ fn run_instr(name: &str, iargs: &[&str], args: &[P]) -> String {
         "not" => imp::not(&mut ctx, &iargs),
         "unwrap" => imp::unwrap(&mut ctx, &iargs),
         "jmp_not_nil" => imp::jmp_not_nil(&mut ctx, &iargs),
+        "vec_op" => imp::vec_op(&mut ctx, &iargs),
         _ => panic!("instr {name}"),
     };
     let out = match r {
@@ -53,6 +54,8 @@ fn variant_by_name(name: &str) -> Option<crate::function::BuiltInFunction> {
         B::GenericToInt, B::GenericToBigint, B::GenericToByte, B::GenericToFloat, B::GenericAbs, B::GenericSqrt, B::GenericPow, B::GenericPowf,
         B::FloatFPart, B::FloatIPart, B::FloatRound, B::FloatFloor, B::FloatCeil, B::ByteToAscii, B::StrParseInt, B::StrParseIntRadix,
         B::StrParseBigint, B::StrParseBigintRadix, B::StrParseBool, B::StrParseFloat, B::StrParseByte, B::GenericToStr,
+        B::VecLen, B::VecReverse, B::VecRemove, B::VecPush, B::VecJoin, B::VecIndexOf, B::VecClear, B::VecClone,
+        B::StrLen, B::StrSubstring, B::StrContains, B::StrIndexOf, B::StrReverse, B::StrInsert, B::StrReplace, B::StrDelete, B::StrSplit, B::StrChars,
     ];
     all.into_iter().find(|b| format!("{:?}", b) == name)
 }
@@ -98,6 +101,53 @@ fn run_builtin(method: &str, args: &[P]) -> String {
         Ok((Some(p), _)) => show(&p),
         Ok((None, _)) => "OK Other none".to_string(),
     };
+    std::mem::forget(ctx);
+    out
+}
+
+/// list built-ins on shared lists: op = "<Variant>:<n>:<m|self|none>"; the first n operands are the receiver's elements, the next m
+/// the elements of a second list passed as argument (`self`: the receiver itself is passed), the rest are plain arguments.
+/// Output: "<result> | <receiver contents afterwards> | <second list afterwards>", result of a list kind tagged same/other/fresh.
+fn run_list_builtin(spec: &str, args: &[P]) -> String {
+    let parts: Vec<&str> = spec.split(':').collect();
+    let b = variant_by_name(parts[0]).unwrap_or_else(|| panic!("builtin {spec}"));
+    let n: usize = parts[1].parse().unwrap();
+    let recv = crate::GcVector::new(args[..n].to_vec());
+    let (other, rest): (Option<crate::GcVector>, &[P]) = match parts[2] {
+        "none" => (None, &args[n..]),
+        "self" => (Some(recv.clone()), &args[n..]),
+        m => {
+            let m: usize = m.parse().unwrap();
+            (Some(crate::GcVector::new(args[n..n + m].to_vec())), &args[n + m..])
+        }
+    };
+    let function = Function::new(Weak::new(), "verif".to_string(), Box::new([]));
+    let stack = Rc::new(RefCell::new(Stack::new()));
+    let mut ctx = Ctx::new(&function, stack, Cow::Owned(vec![]), None);
+    ctx.push(P::Vector(recv.clone()));
+    if let Some(o) = &other {
+        ctx.push(P::Vector(o.clone()));
+    }
+    for a in rest {
+        ctx.push(a.clone());
+    }
+    let items = |v: &crate::GcVector| v.0.borrow().iter().map(item).collect::<Vec<_>>().join(",");
+    let res = match &b.run(&mut ctx) {
+        Err(_) => "ERR".to_string(),
+        Ok((None, _)) => "OK none".to_string(),
+        Ok((Some(P::Vector(v)), _)) => {
+            let tag = if gc::Gc::ptr_eq(&v.0, &recv.0) {
+                "same"
+            } else if other.as_ref().is_some_and(|o| gc::Gc::ptr_eq(&v.0, &o.0)) {
+                "other"
+            } else {
+                "fresh"
+            };
+            format!("OK Vector:{tag}:{}", items(&v))
+        }
+        Ok((Some(p), _)) => format!("OK {}", item(p)),
+    };
+    let out = format!("{res} | {} | {}", items(&recv), other.as_ref().map(items).unwrap_or_default());
     std::mem::forget(ctx);
     out
 }
@@ -235,6 +285,12 @@ pub fn eval_ext(op: &str, args: &[P]) -> String {
     }
     if let Some(m) = op.strip_prefix("B:") {
         return run_builtin(m, args);
+    }
+    if let Some(iarg) = op.strip_prefix("V:") {
+        return run_instr("vec_op", &[iarg], args);
+    }
+    if let Some(rest) = op.strip_prefix("L:") {
+        return run_list_builtin(rest, args);
     }
     if let Some(sym) = op.strip_prefix("I:") {
         return match sym {
